@@ -70,6 +70,8 @@ def run(ctx) -> None:
 _BIN = {"add": "Add", "sub": "Sub", "mul": "Mult", "truediv": "Div", "floordiv": "FloorDiv", "mod": "Mod", "pow": "Pow",
         "lshift": "LShift", "rshift": "RShift"}
 _UN = {"neg": "USub", "pos": "UAdd", "invert": "Invert"}
+_CMP = {"eq": "Eq", "ne": "NotEq", "lt": "Lt", "le": "LtE", "gt": "Gt", "ge": "GtE"}
+_BIN.update({"and_": "BitAnd", "or_": "BitOr", "xor": "BitXor"})
 _A, _B = ("param", "<self element>"), ("param", "<other>")
 
 
@@ -80,6 +82,8 @@ def _apply_op(prog, it, home: FuncInfo, op, args):
     if op[0] == "attr" and op[1] == ("name", "operator"):
         if len(args) == 2 and op[2] in _BIN:
             return ("bin", _BIN[op[2]], args[0], args[1])
+        if len(args) == 2 and op[2] in _CMP:
+            return ("cmp", _CMP[op[2]], args[0], args[1])
         if len(args) == 1 and op[2] in _UN:
             return ("un", _UN[op[2]], args[0])
         if len(args) == 1 and op[2] == "abs":
